@@ -165,6 +165,7 @@ class Kernel(object):
             f['_n'] = 0
         self.fired = []
         self.short_next = False
+        self.fsize = {}
         self.monitors = []
         self.sched = None
         self.cur = None
@@ -231,38 +232,74 @@ class Kernel(object):
             raise HarnessError('path escapes the virtual root: %r' % vabs)
 
     def _orig_realpath(self, p):
-        # realpath using original syscalls (posixpath.realpath would call the
-        # wrappers): cheap reimplementation via /proc is unavailable, so walk.
-        # Memoised between two mutating ops (nothing a resolution depends on can
-        # change in between): deep trees are otherwise quadratic.
+        # realpath using original syscalls (posixpath.realpath would call the wrappers).  Memoised, every prefix on the way
+        # included (see _rp_invalidate for what a mutating op leaves of the memo): deep trees are otherwise quadratic.
+        # realpath(d/b) = realpath(d)/b when b is an ordinary name that is not a symlink; anything else (a link, '.', '..',
+        # an empty component) is handed to posixpath.realpath for that prefix.
         c = self._rp_cache
         r = c.get(p)
         if r is not None:
             return r
-        # realpath(d/b) = realpath(d)/b when b is an ordinary name that is not a symlink
-        d, b = posixpath.split(p)
-        rd = c.get(d)
-        if rd is not None and b not in ('', '.', '..'):
-            cand = rd + '/' + b if rd != '/' else '/' + b
-            try:
-                is_link = statmod.S_ISLNK(O.lstat(cand).st_mode)
-            except OSError:
-                is_link = False
-            if not is_link:
-                if len(c) > 4000:
-                    c.clear()
-                c[p] = cand
-                return cand
+        if len(c) > 12000:
+            c.clear()
+        todo = []
+        d = p
+        rd = None
+        while True:
+            d2, b = posixpath.split(d)
+            if d2 == d:
+                break
+            todo.append((d, b))
+            d = d2
+            rd = c.get(d)
+            if rd is not None:
+                break
+        if rd is None:
+            rd = self._rp_full(d)
+            c[d] = rd
+        for full, b in reversed(todo):
+            if b in ('', '.', '..'):
+                rd = self._rp_full(full)
+            else:
+                cand = rd + '/' + b if rd != '/' else '/' + b
+                try:
+                    is_link = statmod.S_ISLNK(O.lstat(cand).st_mode)
+                except OSError:
+                    is_link = False
+                rd = self._rp_full(cand) if is_link else cand
+            c[full] = rd
+        return rd
+
+    def _rp_full(self, p):
         was = self.active
         self.active = False
         try:
-            r = posixpath.realpath(p)
+            return posixpath.realpath(p)
         finally:
             self.active = was
-        if len(c) > 4000:
-            c.clear()
-        c[p] = r
-        return r
+
+    _RP_NEUTRAL = frozenset(['mkdir', 'open_w', 'write', 'fwrite', 'chmod', 'utime', 'truncate', 'chown', 'lchown', 'sendfile',
+                             'setxattr', 'fsync', 'close', 'mkfifo', 'mknod'])
+
+    def _rp_invalidate(self, kind, vs):
+        """what a mutating operation leaves of the realpath memo.  A resolution changes only when a symlink appears,
+        disappears or is replaced on its way: a missing component resolves lexically, exactly as an ordinary one does, so
+        creating or removing a directory or a regular file, or writing, changes no resolution (a deep tree is removed from
+        the bottom without re-walking its whole depth after every unlink).  Removing a symlink, and everything else (rename,
+        symlink, link ...), clears the memo."""
+        if kind in self._RP_NEUTRAL:
+            return
+        if kind == 'rmdir':
+            return              # (rmdir of a symlink fails with ENOTDIR: nothing changes)
+        if kind in ('unlink', 'remove') and isinstance(vs, str):
+            va = self.vabs(vs)
+            if isinstance(va, str) and va.startswith('/'):
+                try:
+                    if not statmod.S_ISLNK(O.lstat(self.root + va).st_mode):
+                        return
+                except OSError:
+                    return      # the operation is going to fail the same way
+        self._rp_cache.clear()
 
     def vabs(self, vs):
         """lexical absolute virtual path for logging / rule matching"""
@@ -423,7 +460,7 @@ class Kernel(object):
         kind = cls or name
         mut = kind in MUTATING
         if mut and self._rp_cache:
-            self._rp_cache.clear()
+            self._rp_invalidate(kind, vs)
         if p.killed:
             raise SimKilled()
         ev = [self.gseq, p.pid, kind, self.vabs(vs),
@@ -593,11 +630,16 @@ class Kernel(object):
                 if b == f.get('basename') or ('prefix' in f and b.startswith(f['prefix']) and b.endswith(f.get('suffix', ''))):
                     return f['errno']
             return None
+        if what == 'file_size_limit':     # enforced inside the write wrapper (short count, then EFBIG)
+            return None
         raise HarnessError('unknown condition %r' % (what,))
 
     def done(self, ev, result=None):
         self.in_op = False
         ev[6] = result
+        if self.fsize and ev[2] in ('unlink', 'remove', 'rename', 'replace', 'open_w'):
+            # the per-file byte counters of file_size_limit follow the file: gone or truncated -> counts from 0 again
+            self.fsize.pop(ev[3], None)
         for m in self.monitors:
             m(ev, 'post')
 
@@ -1001,6 +1043,22 @@ def _fdop(name):
             return orig(fd, *a, **kw)
         ev = K.begin(name, K.cur.fds.get(fd, '<fd %d>' % fd),
                      extra={'len': len(a[0])} if name == 'write' else None)
+        if name == 'write' and K.faults and isinstance(ev[3], str):
+            # a file-size limit (ulimit -f, a quota boundary) as a persistent condition: each file below D takes at most
+            # `limit` bytes - the write that crosses the limit is SHORT, the next one fails with EFBIG
+            for f_ in K.faults:
+                if f_.get('kind') == 'cond' and f_.get('what') == 'file_size_limit' and ev[3].startswith(f_['dir'] + '/'):
+                    done_ = K.fsize.get(ev[3], 0)
+                    room = f_['limit'] - done_
+                    if room <= 0:
+                        e_ = OSError(E.EFBIG, os.strerror(E.EFBIG))
+                        K.fail(ev, e_)
+                        raise e_
+                    if len(a[0]) > room:
+                        a = (bytes(a[0])[:room],) + tuple(a[1:])
+                        ev[5] = dict(ev[5] or {}, short=room)
+                    K.fsize[ev[3]] = done_ + len(a[0])
+                    break
         if name == 'write' and getattr(K, 'short_next', False):
             K.short_next = False
             if len(a[0]) > 1:
